@@ -24,7 +24,7 @@ func c04Scope(e *Engine, f *ssa.Function) bool {
 	case v5Path, rootPath:
 		return base == "patch.go" || base == "merge.go" || base == "errors.go"
 	case jsonPath:
-		return false
+		return base == "scanner.go"
 	}
 	return false
 }
